@@ -182,6 +182,13 @@ def run_case(ctx, case):
         hist_all = []
         for episode in range(2):
             env.reset()
+            cur = cls
+            if episode == 1 and case["seed"] % 2 == 0:
+                # replace the reward observer through the public setter with a normally built one
+                # (of the other class: reward observers are singletons per class)
+                cur = IdleTimeReward if cls is MakespanReward else MakespanReward
+                env.reward_function = cur(env.dispatcher)
+                ctx.count("reward_replaced_through_setter")
             inst = {"durations": [[op.duration for op in job] for job in env.instance.jobs],
                     "machines": [[list(op.machines) for op in job] for job in env.instance.jobs]}
             r = Ref(inst)
@@ -192,10 +199,11 @@ def run_case(ctx, case):
                 r.apply(op.operation_id, m); k += 1
                 ctx.count("multi_env_steps")
                 rf = env.reward_function
-                if not isinstance(rf, cls) or reward != rf.rewards[-1]:
+                if not isinstance(rf, cur) or reward != rf.rewards[-1]:
                     ctx.violation("c13_multi_env_step_reward", {"returned": reward,
-                                  "rewards": list(rf.rewards), "type": type(rf).__name__})
-                check_prefix(ctx, r, rf if cls is MakespanReward else None,
-                             rf if cls is IdleTimeReward else None, k, "multi_env", {"instance": inst})
+                                  "rewards": list(rf.rewards), "type": type(rf).__name__,
+                                  "expected_type": cur.__name__})
+                check_prefix(ctx, r, rf if cur is MakespanReward else None,
+                             rf if cur is IdleTimeReward else None, k, "multi_env", {"instance": inst})
             hist_all.append(tuple(r.history))
         ctx.note_case(case, True, fingerprint=str(hash((case["seed"], tuple(hist_all)))))
